@@ -35,6 +35,7 @@ class Explorer:
         self.paths = 0
         self.exits = {"normal": 0, "raise": 0, "cut": 0}
         self._loop_ids = {}
+        self.maybe_foreign = set()
         self._spec_cache = {}
         self._index_loops(self.finfo.node, None)
 
@@ -778,6 +779,19 @@ class Explorer:
 
     # ------------------------------------------------------------------ running the unit
     def explore(self):
+        for _round in range(4):
+            before = set(self.maybe_foreign)
+            obligations = self._explore_once()
+            if self.maybe_foreign == before:
+                return obligations
+            # a loop body can make a variable alias a foreign object: explore again with that knowledge at the loop heads
+            self.paths = 0
+            self.trivial = 0
+            self.trivial_names = {}
+            self.exits = {"normal": 0, "raise": 0, "cut": 0}
+        return obligations
+
+    def _explore_once(self):
         obligations = []
         self.pending = [[]]
         while self.pending:
